@@ -122,5 +122,103 @@ theorem c11_limits_from_source :
     (AL.find? Facts.limits "stream.msgs.duration.<").map Int.ofNat = some minStreamDuration ∧
     (AL.find? Facts.limits "stream.msg_server.duration.<").map Int.ofNat = some minStreamDuration := by decide
 
+/-- **Every release restarts the clock.**  After a successful claim the stream is stored with the claim's block time as
+its last-release time and the unreleased remainder as its deposit; rate and advertised zero time are untouched. -/
+theorem c11_claim_restarts_the_clock (x x' : SB) (now : Int) (r s : Addr) (o : ClaimOut) (hi : StreamInv x)
+    (h : claimFromStream x now isBlocked r s = .ok (x', o)) :
+    ∃ st st', find? x.str.streams (r, s) = some st ∧ find? x'.str.streams (r, s) = some st' ∧
+      st'.last = now ∧ st'.deposit = o.rem ∧ st'.rate = st.rate ∧ st'.zero = st.zero := by
+  obtain ⟨_, _, _, _, st, hf, _, _, _, _, _, _, _, hs⟩ := claim_spec x x' now isBlocked isBlocked_Mstr r s o hi h
+  exact ⟨st, { st with deposit := o.rem, last := now }, hf, by rw [hs]; simp, rfl, rfl, rfl, rfl⟩
+
+/-- **A flow-rate change settles at the old rate, restarts the clock and recomputes the zero time from the settled
+remainder**: whatever happened before — also when the settlement itself pays nothing because less than a second has
+passed since the previous release — the stream is stored with last release = the block time, the new rate, deposit =
+the remainder after the settlement, and zero time = block time + ⌊remainder / new rate⌋ seconds. -/
+theorem c11_rate_change_restarts_the_clock (x x' : SB) (now : Int) (r s : Addr) (newRate : Int) (hi : StreamInv x)
+    (h : setNewFlowRate x now isBlocked r s newRate = .ok x') :
+    ∃ st st', find? x.str.streams (r, s) = some st ∧ find? x'.str.streams (r, s) = some st' ∧ st'.rate = newRate ∧
+      (0 < st.deposit →
+        st'.last = now ∧ st'.deposit = (calcAmountToClaim now st.zero st.last st.deposit st.rate).2 ∧
+        st'.zero = addSeconds now (calcDuration st'.deposit newRate)) := by
+  unfold setNewFlowRate at h
+  simp only [bind_eq_ok] at h
+  obtain ⟨st, hfs, h⟩ := h
+  have hf := findStream_ok x r s _ st hfs
+  split at h
+  · rename_i hpos
+    simp only [bind_eq_ok, pure_eq_ok] at h
+    obtain ⟨z, hz, h⟩ := h
+    obtain ⟨_, _, h⟩ := h
+    unfold settleIfFunded at hz
+    rw [if_pos hpos] at hz
+    simp only [bind_eq_ok, pure_eq_ok] at hz
+    obtain ⟨y, hy, rfl⟩ := hz
+    obtain ⟨y1, o⟩ := y
+    obtain ⟨_, _, _, _, st0, hf0, _, _, _, hsum, _, _, htot, hs⟩ := claim_spec x y1 now isBlocked isBlocked_Mstr r s o hi hy
+    rw [hf] at hf0; cases hf0
+    have hfy : find? y1.str.streams (r, s) = some { st with deposit := o.rem, last := now } := by rw [hs]; simp
+    subst h
+    have hrem : o.rem = (calcAmountToClaim now st.zero st.last st.deposit st.rate).2 := by
+      have := calcAmountToClaim_sum now st.zero st.last st.deposit st.rate
+      omega
+    refine ⟨st, Stream.mk st.denom o.rem newRate now (addSeconds now (calcDuration o.rem newRate)) st.cancellable, hf, ?_, rfl, ?_⟩
+    · simp only [setStream, find_insert_eq, hfy, Option.getD_some]
+    · intro _
+      exact ⟨rfl, hrem, rfl⟩
+  · rename_i hnp
+    simp only [pure_eq_ok] at h
+    subst h
+    exact ⟨st, Stream.mk st.denom st.deposit newRate st.last now st.cancellable, hf, by simp [setStream], rfl, fun hp => absurd hp hnp⟩
+
+/-- **A top-up extends the advertised zero time by ⌊top-up / flow rate⌋ seconds** when the stream is still running
+(last release and rate untouched, deposit raised by exactly the top-up); on a stream that has run out it first settles
+what is left, restarts the clock at the block time and advertises block time + ⌊top-up / flow rate⌋ seconds. -/
+theorem c11_topup_extends_zero_time (x x' : SB) (now : Int) (r s : Addr) (denom : String) (amt : Int) (hi : StreamInv x)
+    (h : addDeposit x now isBlocked r s denom amt = .ok x') :
+    ∃ st st', find? x.str.streams (r, s) = some st ∧ find? x'.str.streams (r, s) = some st' ∧ st'.rate = st.rate ∧
+      (now < st.zero → st'.last = st.last ∧ st'.deposit = st.deposit + amt ∧
+        st'.zero = addSeconds st.zero (calcDuration amt st.rate)) ∧
+      (st.zero ≤ now → st'.last = now ∧ st'.zero = addSeconds now (calcDuration amt st.rate) ∧
+        st'.deposit = (if 0 < st.deposit then (calcAmountToClaim now st.zero st.last st.deposit st.rate).2 else st.deposit) + amt) := by
+  unfold addDeposit at h
+  simp only [bind_eq_ok] at h
+  obtain ⟨st, hfs, _, _, y, hy, _, _, bank, _, _, _, h⟩ := h
+  have hf := findStream_ok x r s _ st hfs
+  simp only [pure_eq_ok] at h
+  subst h
+  by_cases hz : st.zero ≤ now
+  · rw [if_pos hz] at hy
+    simp only [bind_eq_ok, pure_eq_ok] at hy
+    obtain ⟨z, hzz, rfl⟩ := hy
+    unfold settleIfFunded at hzz
+    by_cases hpos : st.deposit > 0
+    · rw [if_pos hpos] at hzz
+      simp only [bind_eq_ok, pure_eq_ok] at hzz
+      obtain ⟨yy, hyy, rfl⟩ := hzz
+      obtain ⟨y1, o⟩ := yy
+      obtain ⟨_, _, _, _, st0, hf0, _, _, _, hsum, _, _, htot, hs⟩ := claim_spec x y1 now isBlocked isBlocked_Mstr r s o hi hyy
+      rw [hf] at hf0; cases hf0
+      have hfy : find? y1.str.streams (r, s) = some { st with deposit := o.rem, last := now } := by rw [hs]; simp
+      have hrem : o.rem = (calcAmountToClaim now st.zero st.last st.deposit st.rate).2 := by
+        have := calcAmountToClaim_sum now st.zero st.last st.deposit st.rate
+        omega
+      refine ⟨st, Stream.mk st.denom (o.rem + amt) st.rate now (addSeconds now (calcDuration amt st.rate)) st.cancellable, hf, ?_, rfl, ?_, ?_⟩
+      · simp only [setStream, find_insert_eq, hfy, Option.getD_some]
+      · intro hlt; omega
+      · intro _; rw [if_pos hpos]; exact ⟨rfl, rfl, by rw [hrem]⟩
+    · rw [if_neg hpos] at hzz
+      cases hzz
+      refine ⟨st, Stream.mk st.denom (st.deposit + amt) st.rate now (addSeconds now (calcDuration amt st.rate)) st.cancellable, hf, ?_, rfl, ?_, ?_⟩
+      · simp only [setStream, find_insert_eq]
+      · intro hlt; omega
+      · intro _; rw [if_neg hpos]; exact ⟨rfl, rfl, rfl⟩
+  · rw [if_neg hz] at hy
+    cases hy
+    refine ⟨st, Stream.mk st.denom (st.deposit + amt) st.rate st.last (addSeconds st.zero (calcDuration amt st.rate)) st.cancellable, hf, ?_, rfl, ?_, ?_⟩
+    · simp only [setStream, find_insert_eq]
+    · intro _; exact ⟨rfl, rfl, rfl⟩
+    · intro hge; exact absurd hge hz
+
 end C11
 end Mainchain
